@@ -1,3 +1,8 @@
+import LspVerif.Core.Name
 import LspVerif.Core.Cmp
+import LspVerif.Core.Meta
+import LspVerif.Core.Py
+import LspVerif.Spec.PySpec
 import LspVerif.Props.C20
 import LspVerif.Driver.Cmp
+import LspVerif.Props.C04
